@@ -1165,7 +1165,7 @@ impl TryFrom<&Generator> for GenerateResult {
             return Err(anyhow!("cache from different laze version"));
         }
 
-        let res: GenerateResult = bincode::deserialize_from(buffer)?;
+        let mut res: GenerateResult = bincode::deserialize_from(buffer)?;
 
         if generator.partitioner != res.partitioner {
             return Err(anyhow!("partition values don't match"));
@@ -1219,6 +1219,11 @@ impl TryFrom<&Generator> for GenerateResult {
         }
         if res.treestate.has_changed() {
             return Err(anyhow!("laze: build files have changed"));
+        }
+        // list the builds in the order a fresh run for these builders would
+        if let Selector::Some(names) = &generator.builders {
+            res.build_infos
+                .sort_by_key(|b| names.get_index_of(&b.builder));
         }
         Ok(res)
     }
